@@ -35,13 +35,15 @@ def _weighted_first_value(pairs, item):
 # file scenarios (shared with C02 / C15 / C04 ...)
 
 def gen_file(ctx, tag, max_records, format_weights=None, allow_mixed_optint=False, noncanon=True,
-             allow_gzip=True, lazy_choices=(None, True, False), canonical=False):
+             allow_gzip=True, lazy_choices=(None, True, False), canonical=False, prefer_mixed_optint=False):
     """draws a file description; JSON-able.  canonical: the file is exactly what the library's writer would emit for
     its values (LF, repr floats, no missing markers, no extra columns)"""
     tape = ctx.tape
     fmt = T.FORMATS[tape.weighted(format_weights or FORMAT_WEIGHTS, tag + "fmt")]
     style = T.gen_style(tape, fmt, allow_crlf=not canonical)
     style["allow_mixed_optint"] = bool(allow_mixed_optint)
+    if prefer_mixed_optint:
+        style["prefer_mixed_optint"] = True
     if canonical:
         noncanon = False
         style.update({"float_repr": True, "no_missing": True, "no_extra": True})
